@@ -70,6 +70,7 @@ class C04(F.Check):
                 names = {}
                 for fam, body in (("fovf", "return will_conversion_overflow(%s, %s{});" % (q, u2)),
                                   ("ftrunc", "return will_conversion_truncate(%s, %s{});" % (q, u2)),
+                                  ("flossy", "return is_conversion_lossy(%s, %s{});" % (q, u2)),
                                   ("fconv", "return %s.in(%s{});" % (q, u2))):
                     k = F.Kernel("c04_%s_%s" % (fam, tag), "bool" if fam != "fconv" else ct, [(ct, "x")], body,
                                  key=key, mode="ub", family=fam)
@@ -166,6 +167,12 @@ class C04(F.Check):
                             note="overflow reported => converted value infinite or within 2ulp of max"))
             obs.append(F.Ob("fT:" + tag, xs, fnT, routes=F.FP_ROUTES, key=key, kernels=[names["ftrunc"]],
                             note="floating reps never report truncation"))
+
+            def fnL(K, x, names=names):
+                l_, o_, t_ = K[names["flossy"]](x), K[names["fovf"]](x), K[names["ftrunc"]](x)
+                return T.TRUE, T.and_(T.not_(l_.ub), T.eq(l_.ret, T.or_(o_.ret, t_.ret)))
+            obs.append(F.Ob("fL:" + tag, xs, fnL, kind=kind, routes=F.FP_ROUTES, key=key, timeout=to, kernels=[names["flossy"], names["fovf"], names["ftrunc"]],
+                            note="is_conversion_lossy is the disjunction of will_conversion_overflow and will_conversion_truncate, for every bit pattern"))
             # vacuity witness for (B): is overflow ever reported?
             def wB(K, x, names=names, fmt=fmt):
                 o = K[names["fovf"]](x)
